@@ -189,7 +189,7 @@ def run(ctx):
             w = s.split(" ")
             key = " ".join(w[:2]) if w[0] == "res" else w[0].split("=")[0]
             outcomes[key] = outcomes.get(key, 0) + 1
-    distinct = set(r for r in reqs if r.split(" ")[5] == "1")
+    distinct = set(r for r in reqs if r.startswith("live") or (len(r.split(" ")) > 5 and r.split(" ")[5] == "1"))
     ctx.coverage.update({
         "evaluations": ncalls, "histories": len(reqs), "distinct_nontrivial": len(distinct), "rule": RULE,
         "case_kinds": kinds, "call_kinds": calls, "impl_outcomes": outcomes,
